@@ -93,6 +93,80 @@ def resolve(cond, text, before):
     return re.sub(r"\s+", "", cond)
 
 
+def bool_helpers():
+    """one-expression `fn name(&self[, p: T]) -> bool { expr }` helpers of the VM: {name: (param or None, expr)}"""
+    import os
+    out = {}
+    root = os.path.join(extract.REPO, "runtime", "src", "vm")
+    for dp, dn, fns in os.walk(root):
+        for f in fns:
+            if not f.endswith(".rs"):
+                continue
+            try:
+                txt = strip_comments(open(os.path.join(dp, f)).read())
+            except Exception:
+                continue
+            for m in re.finditer(r"\bfn\s+(\w+)\s*\(\s*&\s*self\s*(?:,\s*(\w+)\s*:\s*[^,)]+)?,?\s*\)\s*->\s*bool\s*\{\s*([^{};]+?)\s*\}", txt):
+                out[m.group(1)] = (m.group(2), m.group(3))
+    return out
+
+
+def inline_helpers(cond, helpers):
+    for _ in range(3):
+        m = re.search(r"\bself\s*\.\s*(\w+)\s*\(\s*([^()]*?)\s*\)", cond)
+        changed = False
+        for m in re.finditer(r"\bself\s*\.\s*(\w+)\s*\(\s*([^()]*?)\s*\)", cond):
+            name, arg = m.group(1), m.group(2)
+            if name in helpers:
+                param, expr = helpers[name]
+                if param:
+                    expr = re.sub(r"(?<![\.\w])" + param + r"\b", "(" + arg + ")", expr)
+                cond = cond[:m.start()] + "(" + expr + ")" + cond[m.end():]
+                changed = True
+                break
+        if not changed:
+            break
+    return cond
+
+
+def propagates_error(body, call_end):
+    """does an Err of the call whose argument list ends at `call_end` leave the function?  `call(..)?`, or the call is
+    the scrutinee of a `match` with an arm `Err(..) => return Err(..)`"""
+    rest = body[call_end:]
+    if re.match(r"\s*\?", rest):
+        return True
+    m = re.match(r"\s*\{", rest)
+    if m:
+        depth, j = 0, call_end + m.end() - 1
+        i0 = j
+        while j < len(body):
+            if body[j] == "{":
+                depth += 1
+            elif body[j] == "}":
+                depth -= 1
+                if depth == 0:
+                    break
+            j += 1
+        blk = body[i0:j]
+        return re.search(r"Err\s*\([^)]*\)\s*=>\s*\{?\s*return\s+Err", blk) is not None
+    return False
+
+
+def call_sites(body, method):
+    """[(start, end-after-closing-paren)] of `.method(...)` calls (one level of nested parentheses)"""
+    out = []
+    for m in re.finditer(r"\.\s*" + method + r"\s*\(", body):
+        depth, j = 1, m.end()
+        while j < len(body) and depth:
+            if body[j] == "(":
+                depth += 1
+            elif body[j] == ")":
+                depth -= 1
+            j += 1
+        out.append((m.start(), j))
+    return out
+
+
 LOADED = ("self.current_global_mapping_id", "self.current_global_layout")
 LEAVING = ("self.frames.len()==1", "self.frames.len()<=1", "self.frames.len()<2", "1==self.frames.len()")
 
@@ -108,13 +182,13 @@ def gen_repl_shape():
     st = {
         "clear": pos(body, r"\.\s*clear_frames\s*\("),
         "parse": pos(body, r"\bLexer\s*::|\bParser\s*::"),
-        "load": pos(body, r"\bload_modules_for_program\s*\("),
+        "load": pos(body, r"\bload_modules_\w+\s*\("),
         "compile": pos(body, r"\.\s*compile_typed\s*\("),
         "mutability": pos(body, r"\.\s*update_global_mutability\s*\("),
         "rec_imports": pos(body, r"\.\s*add_repl_(?:module_aliases|known_native_globals|symbol_origins)\s*\("),
         "rec_known": pos(body, r"\.\s*add_repl_known_globals\s*\("),
         "alloc": pos(body, r"\.\s*alloc_function\s*\("),
-        "execute_q": pos(body, r"\.\s*execute\s*\([^()]*\)\s*\?"),
+        "execute_q": [a for a, e in call_sites(body, "execute") if propagates_error(body, e)],
         "execute": pos(body, r"\.\s*execute\s*\("),
         "sync": pos(body, r"\.\s*sync_globals_to_hashmap\s*\("),
     }
@@ -130,8 +204,8 @@ def gen_repl_shape():
     if not (st["mutability"] and compile_at < min(st["mutability"]) and max(st["mutability"]) < exec_at):
         raise ExtractError("run_with_vm_and_opt: update_global_mutability is not between compile_typed and execute; Model/Session.v:mstep is out of date")
     # the imports are recorded in the VM only once the input has been accepted (after compile_typed(..)?)
-    compile_q = re.search(r"\.\s*compile_typed\s*\([^;]*\)\s*\?\s*;", body)
-    imports_after_compile = compile_q is not None and all(p > compile_at for p in st["rec_imports"]) and \
+    compile_q = any(propagates_error(body, e) for a, e in call_sites(body, "compile_typed"))
+    imports_after_compile = compile_q and all(p > compile_at for p in st["rec_imports"]) and \
         all(p > compile_at for p in st["rec_known"])
     # execute()? -- an error leaves before the sync; the sync and the recording of the unit's names follow a successful run
     sync_after_run = bool(st["execute_q"]) and min(st["execute_q"]) == exec_at and exec_at < min(st["sync"]) and \
@@ -143,7 +217,7 @@ def gen_repl_shape():
     mbody = fn_body(comp, "compile_module")
     if mbody is None:
         raise ExtractError("compile_module not found")
-    me = pos(mbody, r"\.\s*execute\s*\([^()]*\)\s*\?")
+    me = [a for a, e in call_sites(mbody, "execute") if propagates_error(mbody, e)]
     ms = pos(mbody, r"\.\s*sync_globals_to_hashmap\s*\(")
     mr = pos(mbody, r"\.\s*register_exports\s*\(")
     if not (me and mr):
@@ -172,9 +246,21 @@ def gen_repl_shape():
         arity_first = arity_first and bool(pa) and min(pa) < min(pp)
         host_clears = host_clears and bool(pos(bd, r"\.\s*clear_frames\s*\(|\.\s*frames\s*\.\s*clear\s*\("))
         sets_gmap = sets_gmap and bool(pos(bd, r"\.\s*global_mapping_id\s*=\s*[^=;]+;"))
+    # ------------------------------------------------------------------ set_global (by name) also writes the loaded slot
+    acc = strip_comments(rd("runtime/src/vm/globals/access.rs"))
+    sg = fn_body(acc, "set_global")
+    if sg is None:
+        raise ExtractError("access.rs: set_global not found")
+    writes_loaded = False
+    for m in re.finditer(r"self\s*\.\s*globals_by_index\s*\[\s*(\w+)\s*\]\s*=\s*(\w+)\s*;", sg):
+        # the index must come from the position of the name in the LOADED layout
+        before = sg[:m.start()]
+        if re.search(r"current_global_layout", before) and re.search(r"\.\s*position\s*\(|\.\s*index_of\s*\(|\.\s*iter\s*\(\s*\)", before):
+            writes_loaded = True
     # ------------------------------------------------------------------ layout switches of the interpreter
     files = ("calls.inc", "call_global.inc", "call_global_mono.inc", "call_cached.inc", "call_upval.inc", "tail_call_upval.inc")
     n_sites, n_loaded, n_other, n_leaving = 0, 0, 0, 0
+    helpers = bool_helpers()
     other = []
     calls_txt = None
     for f in files:
@@ -191,7 +277,7 @@ def gen_repl_shape():
                 n_other += 1
                 other.append(f"{f}: unconditional")
                 continue
-            r = resolve(cond, txt, k)
+            r = re.sub(r"\s+", "", inline_helpers(resolve(inline_helpers(cond, helpers), txt, k), helpers))
             n_sites += 1
             if any(x in r for x in LOADED):
                 n_loaded += 1
@@ -232,6 +318,7 @@ def gen_repl_shape():
            f"Definition CALLS_COMPARE_WITH_LOADED_LAYOUT : bool := {b(compare_loaded)}.\n",
            f"Definition RETURN_SYNCS_WHEN_LEAVING : bool := {b(return_syncs_leaving)}.\n",
            f"Definition RUN_FAST_UNWINDS_ON_ERROR : bool := {b(unwinds)}.\n",
+           f"Definition SET_GLOBAL_WRITES_LOADED_SLOT : bool := {b(writes_loaded)}.\n",
            f"(* layout switches found: {n_sites} ({n_loaded} compare with the loaded layout, {n_leaving} also when leaving the run loop; "
            f"{n_returns} Return handlers); host call entry points running bytecode: {len(entry)} *)\n"]
     for n in notes:
